@@ -42,6 +42,7 @@ type step struct {
 	Ops     []string          `json:"ops"`
 	Hs      []int             `json:"hs"`
 	Frames  [][]int           `json:"frames"`
+	Refs    bool              `json:"refs"` // the arguments of a Call are handles of TopicFilter values
 	NoObs   bool              `json:"noobs"`
 	Observe string            `json:"observe"` // "all": attach obs of every live handle
 }
@@ -59,6 +60,7 @@ type machine struct {
 	streams map[int]*scriptedReader
 	spos    map[int][]byte
 	bufs    map[int][]byte
+	slices  map[int][]mq.TopicFilter
 	out     *json.Encoder
 	flush   func() error
 	mu      sync.Mutex
@@ -216,6 +218,16 @@ func (m *machine) convArg(raw json.RawMessage, t reflect.Type) (reflect.Value, e
 		}
 		return reflect.ValueOf(p), nil
 	case t == tTopicFilter:
+		var ref struct {
+			H int `json:"h"`
+		}
+		if json.Unmarshal(raw, &ref) == nil && ref.H != 0 { // the caller passes a TopicFilter value it keeps using
+			tf, ok := m.pkts[ref.H].(*mq.TopicFilter)
+			if !ok {
+				return reflect.Value{}, fmt.Errorf("handle %d is not a *TopicFilter", ref.H)
+			}
+			return reflect.ValueOf(*tf), nil
+		}
 		var pair []json.RawMessage
 		if err := json.Unmarshal(raw, &pair); err != nil || len(pair) != 2 {
 			return reflect.Value{}, fmt.Errorf("topic filter wants [filter, options]")
@@ -406,6 +418,9 @@ func (m *machine) runStep(idx int, s step) (stop bool) {
 			fatal("program %s: %v", "call", err)
 		}
 		e := obj{"ev": "Call", "h": s.H, "m": s.M, "args": s.Args}
+		if s.Refs {
+			e["refs"] = true
+		}
 		m.attachObs(e, s.H, s.NoObs)
 		m.emit(e)
 
@@ -484,11 +499,13 @@ func (m *machine) runStep(idx int, s step) (stop bool) {
 		var rd io.Reader = r
 		m.steps = 0
 		stepLimit = budgetFor(len(r.data) - r.pos)
+		alloc0 := totalAlloc()
 		p, err := mq.ReadPacket(rd)
+		alloc := clampAlloc(totalAlloc() - alloc0)
 		stepLimit = 0
 		e := obj{"ev": "Read", "stream": s.Stream, "h": s.H, "pos0": pos0, "pos1": r.pos, "calls": r.takeCalls(),
 			"ok": err == nil, "nilpkt": isNilPacket(p), "isE": errors.Is(err, ErrInjected), "isEOF": errors.Is(err, io.EOF),
-			"steps": int(stepCount())}
+			"steps": int(stepCount()), "alloc": int(alloc)}
 		if err != nil {
 			e["errtext"] = err.Error()
 		}
@@ -532,11 +549,13 @@ func (m *machine) runStep(idx int, s step) (stop bool) {
 		data := m.bufs[s.Buf]
 		m.steps = 0
 		stepLimit = budgetFor(len(data))
+		alloc0 := totalAlloc()
 		err := p.(encoding.BinaryUnmarshaler).UnmarshalBinary(data)
+		alloc := clampAlloc(totalAlloc() - alloc0)
 		stepLimit = 0
 		m.pkts[s.H] = p
 		e := obj{"ev": "Unmarshal", "h": s.H, "type": typeName(p), "buf": s.Buf, "data": ints(data), "err": err != nil, "into": s.Key == "into",
-			"steps": int(stepCount()), "lens": listLens(p)}
+			"steps": int(stepCount()), "alloc": int(alloc), "lens": listLens(p)}
 		m.attachObs(e, s.H, s.NoObs)
 		m.emit(e)
 
@@ -610,6 +629,72 @@ func (m *machine) runStep(idx int, s step) (stop bool) {
 		m.emit(obj{"ev": "Filter", "args": s.Args, "wfErr": tf.WellFormed() != nil, "string": ints([]byte(str)),
 			"filter": ints([]byte(tf.Filter())), "options": int(tf.Options())})
 
+	case "NewFilter":
+		// a TopicFilter value the program keeps and reuses (caller-side aliasing, C12/C14)
+		var fb []int
+		var opt int
+		if len(s.Args) != 2 || json.Unmarshal(s.Args[0], &fb) != nil || json.Unmarshal(s.Args[1], &opt) != nil {
+			fatal("NewFilter wants [filter, options]")
+		}
+		tf := mq.NewTopicFilter(string(toBytes(fb)), mq.Opt(opt))
+		m.pkts[s.H] = &tf
+		ev := obj{"ev": "NewFilter", "h": s.H, "args": s.Args}
+		m.attachObs(ev, s.H, s.NoObs)
+		m.emit(ev)
+
+	case "Slice":
+		// a []TopicFilter the program keeps (with spare capacity) and passes with "..."
+		sl := make([]mq.TopicFilter, 0, len(s.Args)+2)
+		for _, raw := range s.Args {
+			v, err := m.convArg(raw, tTopicFilter)
+			if err != nil {
+				fatal("Slice: %v", err)
+			}
+			sl = append(sl, v.Interface().(mq.TopicFilter))
+		}
+		m.slices[s.H] = sl
+		m.emit(obj{"ev": "Slice", "h": s.H, "args": s.Args})
+
+	case "SliceSet":
+		// the caller overwrites element N of its own slice (and may re-slice it to length Stream)
+		v, err := m.convArg(s.Args[0], tTopicFilter)
+		if err != nil {
+			fatal("SliceSet: %v", err)
+		}
+		sl := m.slices[s.H]
+		if s.N >= len(sl) {
+			sl = append(sl, v.Interface().(mq.TopicFilter))
+		} else {
+			sl[s.N] = v.Interface().(mq.TopicFilter)
+		}
+		m.slices[s.H] = sl
+		ev := obj{"ev": "SliceSet", "h": s.H, "n": s.N, "args": s.Args}
+		m.attachObs(ev, 0, s.NoObs)
+		m.emit(ev)
+
+	case "CallSpread":
+		// p.M(xs...) where xs is the caller's slice (handle From, no Key) or the result of accessor Key of packet From
+		p := m.pkts[s.H]
+		if isNilPacket(p) {
+			m.emit(obj{"ev": "Skip", "op": s.Op, "h": s.H, "why": "nil handle"})
+			return true
+		}
+		var xs reflect.Value
+		if s.Key == "" {
+			xs = reflect.ValueOf(m.slices[s.From])
+		} else {
+			q := m.pkts[s.From]
+			if isNilPacket(q) {
+				m.emit(obj{"ev": "Skip", "op": s.Op, "h": s.H, "why": "nil source handle"})
+				return true
+			}
+			xs = reflect.ValueOf(q).MethodByName(s.Key).Call(nil)[0]
+		}
+		reflect.ValueOf(p).MethodByName(s.M).CallSlice([]reflect.Value{xs})
+		ev := obj{"ev": "CallSpread", "h": s.H, "m": s.M, "from": s.From, "key": s.Key}
+		m.attachObs(ev, s.H, s.NoObs)
+		m.emit(ev)
+
 	case "CmpDiag":
 		// a marker: the trace specification compares the Diag outputs of the two handles
 		m.emit(obj{"ev": "CmpDiag", "hs": s.Hs})
@@ -655,6 +740,7 @@ func (m *machine) runProgram(pr program) {
 	m.streams = map[int]*scriptedReader{}
 	m.spos = map[int][]byte{}
 	m.bufs = map[int][]byte{}
+	m.slices = map[int][]mq.TopicFilter{}
 	m.observe = ""
 	if len(pr.Steps) > 0 && pr.Steps[0].Observe != "" {
 		m.observe = pr.Steps[0].Observe
@@ -669,4 +755,19 @@ func (m *machine) runProgram(pr program) {
 			break
 		}
 	}
+}
+
+// totalAlloc: bytes allocated so far by this (single-goroutine) worker; the delta around a decode is the C05 memory sensor.
+func totalAlloc() uint64 {
+	var ms runtime.MemStats
+	runtime.ReadMemStats(&ms)
+	return ms.TotalAlloc
+}
+
+// clampAlloc keeps the figure inside TLC's 32-bit integers.
+func clampAlloc(a uint64) uint64 {
+	if a > 2000000000 {
+		return 2000000000
+	}
+	return a
 }
